@@ -151,6 +151,13 @@ def check_pair(case) -> Result:
         i = next((k for k, (a, b) in enumerate(zip(c1, c2)) if a != b), min(len(c1), len(c2)))
         r.bad("output-differs", f"noise {labels} changed the converted document at {i}: ...{c1[max(0, i - 80) : i + 80]!r} vs ...{c2[max(0, i - 80) : i + 80]!r}; noisy={case['noisy'][:400]}")
         r.info = {"o1": o1, "o2": o2}
+    if c1 == c2:
+        # the parsed comparison above cannot see namespace declarations nobody uses; they are part of the converted
+        # document all the same: the root start tag must declare the same namespaces with and without the noise
+        ns1, ns2 = (sorted(set(re.findall(r'\sxmlns(?::[\w.-]+)?="[^"]*"', o[o.index("<svg") : o.index(">", o.index("<svg"))]))) for o in (o1, o2))
+        if ns1 != ns2:
+            r.bad("output-differs", f"noise {labels} changed the namespace declarations of the output root: {ns1} vs {ns2}; noisy={case['noisy'][:400]}")
+            r.info = {"o1": o1, "o2": o2}
     deep = any("@" in l and l.split("@")[1] not in ("svg", "document") for l in labels)
     r.nontrivial = deep and o1.count("<path") >= 2
     return r
